@@ -303,7 +303,7 @@ func (w *flWorld) check(T, K int, prop string) {
 	}
 	vfCover("C02.end")
 	if outstanding > 0 {
-		vfCover("C02.end-with-outstanding")
+		vfCover("opt:C02.end-with-outstanding")
 	}
 }
 
